@@ -138,6 +138,30 @@ def run(ctx):
             root, inv = optres_root(du, dest)
             ok_edges = [e for e, f in g.facts() if f[0] == "variant" and f[1] == root and f[3] is (False if inv else True)]
             if not ok_edges:
+                # the result handed on with its Ok side untouched before it is tested: `queue.recv().map_err(..)` returned by a helper
+                # (inlined, A11) and matched by the loop
+                def from_recv(v, depth=0):
+                    if depth > 12:
+                        return False
+                    if v[0] == "call":
+                        if v[3] == rb:
+                            return True
+                        if (v[1] or "").endswith(("Result::<T, E>::map_err", "Result::<T, E>::or_else")) and v[2]:
+                            return from_recv(v[2][0], depth + 1)
+                        return False
+                    if v[0] in ("place", "ref") and not [e_ for e_ in v[1][1] if e_ != "*"]:
+                        w = du.val_place((v[1][0], ()))
+                        if w != v:
+                            return from_recv(w, depth + 1)
+                        # several definitions (the inlined helper's returns): the early Err of a `?` aside, each one hands on the recv result
+                        ds_ = [d_ for d_ in du.defs.get(v[1][0], []) if not (d_[0] == "call" and (callee_name(d_[3]) or "").endswith("::from_residual"))]
+                        if not ds_ or len(ds_) == len(du.defs.get(v[1][0], [])) and len(ds_) > 1:
+                            return False
+                        return all(from_recv(du.val_call(d_[3], 0, d_[1]) if d_[0] == "call" else du.val_rvalue(d_[3], 0, d_[1]), depth + 1) for d_ in ds_)
+                    return False
+                ok_edges = [e for e, f in g.facts() if f[0] == "variant" and f[3] is True and e[0] in cfg.reachable_from(rb)
+                            and from_recv(du.val_place(du.canon(f[1])))]
+            if not ok_edges:
                 r4.violate("C07|R4|%s|no-ok-edge" % wc, "the result of recv() is never tested in %s" % wc, fn.file, fn.span["line"], wc)
             for e in ok_edges:
                 for lp in lps:
